@@ -534,7 +534,9 @@ def drive(run, binpath, cases, tag, judge, classify=None, contradicts=""):
     classify(prog, events, answer, failures) -> list of known-finding class ids."""
     n_or = 0
     n_corr = 0
+    answers = []
     for k, (prog, events, ans, si, sm) in enumerate(run_cases(run, binpath, cases, tag)):
+        answers.append(None if si == "SLOW" else ans)
         nmatch = sum(len(e["matches"]) for e in ans.get("events", []))
         key = json.dumps(describe(prog, events), sort_keys=True) if nmatch else None
         run.case(key, sample=describe(prog, events) if k < 2 else None)
@@ -567,6 +569,7 @@ def drive(run, binpath, cases, tag, judge, classify=None, contradicts=""):
                 run.tie_broken("correspondence Sase/Model.v vs sase.rs", json.dumps(describe(prog, events))[:1500] + "\n impl  " + si + "\n model " + sm)
     run.extra["oracle_failures"] = n_or
     run.extra["disagreements"] = n_corr
+    return answers
 
 
 def replay_case(run, path, judge):
